@@ -72,6 +72,7 @@ type TraceVerdict struct {
 }
 
 var hwRe = regexp.MustCompile(`HIGHWATER (\d+)`)
+var lRe = regexp.MustCompile(`(?m)^/\\ l = (\d+)$`)
 
 // ValidateTrace runs the trace spec `module` with config cfg on the ndjson file.
 // Convention for trace specs: the cfg lists INVARIANT NotAccepted (its violation is
@@ -93,6 +94,10 @@ func ValidateTrace(dir, module, cfg, tracePath string, timeout time.Duration, en
 	}
 	if res.Violated != "" {
 		v.Violated = res.Violated
+		// the counterexample's last state tells how far the trace had been consumed
+		if ms := lRe.FindAllStringSubmatch(res.Out, -1); len(ms) > 0 {
+			v.HighWater, _ = strconv.Atoi(ms[len(ms)-1][1])
+		}
 		return v, nil
 	}
 	if res.Infra() || res.ExitCode != 0 && !hwRe.MatchString(res.Out) {
